@@ -49,6 +49,13 @@ func setup(greeting string) *env {
 		case "ENABLE":
 			return "* ENABLED UTF8=ACCEPT\r\n" + c.Tag + " OK done\r\n"
 		case "SEARCH":
+			// distinguishable answers: the routing scenario checks that each caller gets its own
+			switch {
+			case strings.Contains(c.Line, "aaa"):
+				return "* SEARCH 11\r\n" + c.Tag + " OK done\r\n"
+			case strings.Contains(c.Line, "bbb"):
+				return "* SEARCH 22\r\n" + c.Tag + " OK done\r\n"
+			}
 			return "* SEARCH 1 2\r\n" + c.Tag + " OK done\r\n"
 		case "SELECT":
 			return "* 2 EXISTS\r\n* FLAGS (\\Seen)\r\n" + c.Tag + " OK [READ-WRITE] done\r\n"
@@ -116,6 +123,28 @@ func scenarios() []scenario {
 				rec("status", err)
 			})
 			e.caller("B", func(rec func(string, error)) { rec("noop", e.c.Noop().Wait()) })
+			return e.finish()
+		}},
+		{name: "2callers-search-routing", allOK: true, body: func() interface{} {
+			// two goroutines each run a SEARCH; the server processes commands in wire order and
+			// answers untagged SEARCH data (matched by type, not by tag): each caller must get the
+			// data of its own command, i.e. the pending queue must be in wire order
+			e := setup("* PREAUTH [CAPABILITY IMAP4rev1] ready\r\n")
+			for _, x := range [][2]string{{"A", "aaa"}, {"B", "bbb"}} {
+				name, word := x[0], x[1]
+				want := map[string]string{"aaa": "11", "bbb": "22"}[word]
+				e.caller(name, func(rec func(string, error)) {
+					d, err := e.c.Search(&imap.SearchCriteria{Body: []string{word}}, nil).Wait()
+					if err == nil && (d == nil || d.All == nil || d.All.String() != want) {
+						got := "<nil>"
+						if d != nil && d.All != nil {
+							got = d.All.String()
+						}
+						err = fmt.Errorf("SEARCH %s returned %s, want %s", word, got, want)
+					}
+					rec("search", err)
+				})
+			}
 			return e.finish()
 		}},
 		{name: "3callers-plain", allOK: true, maxBound: 1, body: func() interface{} {
